@@ -24,17 +24,97 @@ def P(*xs):
 # instance factories
 
 def sram_inst(name, dw, depth, aw, ro=False, burst=False, init=None, mode="A", adrs=None, sels=None,
-              ctis=((0, 0),)):
+              ctis=((0, 0),), from_memory=False, adr_max=None):
     nb = dw // 8
     init = init or []
-    top = L.build_sram(dw, depth, aw, ro=ro, burst=burst, init=list(init) or None)
+    top = L.build_sram(dw, depth, aw, ro=ro, burst=burst, init=list(init) or None, from_memory=from_memory)
     lean_open = P("sram", nb, depth, aw, int(ro), int(burst), *init)
     mon = lambda: MasterMemMonitor(nb, depth * nb, init_bytes(init, nb), max_wait=4, bursts=burst, read_only=ro)
     if mode == "A":
         alpha = L.master_letters(nb, adrs, sels if sels is not None else range(1 << nb), L.lane_values(nb), ctis)
         return WbInst(name, top, lean_open, alphabet=alpha, monitor=mon)
-    mg = BurstMaster(nb, (1 << aw) - 1) if burst else ClassicMaster(nb, (1 << aw) - 1, cti_random=True)
+    amax = adr_max if adr_max is not None else (1 << aw) - 1
+    mg = BurstMaster(nb, amax) if burst else ClassicMaster(nb, amax, cti_random=True)
     return WbInst(name, top, lean_open, master_gen=mg, monitor=mon)
+
+
+def direct_inst(name, kind, dw, aw, mode="A"):
+    """Equal-width Converter / Cache(0): plain connections (model: `direct`)."""
+    nb = dw // 8
+    top = L.build_direct(kind, dw, aw)
+    lean_open = P("direct", nb)
+    if mode == "A":
+        ml = L.master_letters(nb, range(3), [0, (1 << nb) - 1, 1], L.lane_values(nb), ctis=((0, 0), (2, 1)))
+        alpha = L.with_slave(ml, [(0, 0, 0), (1, L.lane_values(nb)[1], 0), (0, 0, 1), (1, 0, 1)])
+        return WbInst(name, top, lean_open, alphabet=alpha, kind="adapter", monitor=lambda: SlaveSideMonitor())
+    rs = RefSlave(nb)
+    mon = lambda: Both(MasterMemMonitor(nb, 1 << 40, max_wait=40, backing=rs), SlaveSideMonitor())
+    return WbInst(name, top, lean_open, kind="adapter", master_gen=ClassicMaster(nb, (1 << aw) - 1, cti_random=True),
+                  slave_gen=rs, monitor=mon)
+
+
+def soc_glue_inst(name, bus_dw, master_dw, bursting=False, master_addressing="word"):
+    """Monitor-only instance built through the SoC glue (add_ram, add_master/add_adapter, finalize): no Lean model
+    (the interconnect belongs to C06); judged by the reference byte memory."""
+    nbm = master_dw // 8
+    ram_size, rom_size = 256, 128
+    bw = bus_dw // 8                                   # `contents` are words of the bus width
+    bmask = (1 << bus_dw) - 1
+    ram_init = [(0x0100019301000193 * (i + 1)) & bmask for i in range(ram_size // bw - 3)]
+    rom_init = [(0x9E3779B19E3779B1 * (i + 5)) & bmask for i in range(rom_size // bw)]
+    top = L.build_soc_glue(bus_dw, master_dw, bursting, ram_size, rom_size, ram_init, rom_init, master_addressing)
+    sh = L.log2i(nbm)
+    ashift = sh if master_addressing == "byte" else 0          # letters carry the port's own address unit
+    regions = [(0x20000000, ram_size), (0x30000000, rom_size)]
+    hot = []
+    for org, size in regions:
+        hot += [((org + o) >> sh) << ashift for o in range(0, size, nbm)]
+    init = {}
+    for org, words in ((0x20000000, ram_init), (0x30000000, rom_init)):
+        for i, w in enumerate(words):
+            for k in range(bw):
+                init[org + bw * i + k] = (w >> (8 * k)) & 0xFF
+
+    def byte_map(adr, lane):
+        return ((adr >> ashift) << sh) + lane
+    mon = lambda: MasterMemMonitor(nbm, 1 << 40, max_wait=24, byte_map=byte_map, init_fn=lambda a: init.get(a, 0),
+                                   ro_ranges=[(0x30000000, 0x30000000 + rom_size)], bursts=bursting)
+    mg = _RegionMaster(nbm, hot, bursting, ashift)
+    return WbInst(name, top, None, master_gen=mg, monitor=mon)
+
+
+class _RegionMaster(ClassicMaster):
+    """Classic master (or linear-burst master) that only addresses the given word addresses (SoC regions: an
+    unmapped address would wait for the bus timeout)."""
+    def __init__(self, nb, adrs, bursting, ashift):
+        ClassicMaster.__init__(self, nb, max(adrs), hot=0, hot_adrs=adrs)
+        self.adrs, self.bursting, self.ashift = adrs, bursting, ashift
+        self.beats = []
+
+    def reset(self):
+        ClassicMaster.reset(self)
+        self.beats = []
+
+    def next(self, rng, t, last_letter, last_outs):
+        if self.pending is not None and last_outs is not None and not last_outs[0]:
+            return self.pending
+        self.pending = None
+        if not self.beats:
+            if rng.random() < 0.25:
+                return (0, 0, 0, 0, 0, 0, 0, 0)
+            full = (1 << self.nb) - 1
+            we = rng.randint(0, 1)
+            k = rng.randrange(len(self.adrs))
+            n = rng.randint(2, 5) if (self.bursting and rng.random() < 0.5) else 1
+            n = min(n, len(self.adrs) - k)
+            if n > 1 and (self.adrs[k + n - 1] - self.adrs[k]) != (n - 1) << self.ashift:
+                n = 1       # do not run a burst across a region boundary
+            for b in range(n):
+                sel = full if rng.random() < 0.5 else rng.randint(0, full)
+                cti = 0 if n == 1 else (7 if b == n - 1 else 2)
+                self.beats.append((1, 1, we, self.adrs[k + b], sel, rng.randint(0, (1 << (8 * self.nb)) - 1), cti, 0))
+        self.pending = self.beats.pop(0)
+        return self.pending
 
 
 def conv_inst(name, dwm, dws, awm, mode="A", adrs=None, sels=None, ctis=((0, 0),), slave_letters=None):
@@ -48,9 +128,10 @@ def conv_inst(name, dwm, dws, awm, mode="A", adrs=None, sels=None, ctis=((0, 0),
         alpha = L.with_slave(L.master_letters(nbm, adrs, sels, L.lane_values(nbm), ctis, extra_idle=True),
                              slave_letters)
         return WbInst(name, top, lean_open, alphabet=alpha, kind="adapter", monitor=lambda: SlaveSideMonitor())
-    mon = lambda: Both(MasterMemMonitor(nbm, 1 << 40, max_wait=40 * max(1, dwm // dws)), SlaveSideMonitor())
+    rs = RefSlave(nbs)
+    mon = lambda: Both(MasterMemMonitor(nbm, 1 << 40, max_wait=40 * max(1, dwm // dws), backing=rs), SlaveSideMonitor())
     return WbInst(name, top, lean_open, kind="adapter", master_gen=ClassicMaster(nbm, (1 << awm) - 1, cti_random=True),
-                  slave_gen=RefSlave(nbs), monitor=mon)
+                  slave_gen=rs, monitor=mon)
 
 
 def conv_sram_inst(name, dwm, dws, awm, depth, init=None, mode="A", adrs=None, sels=None, ctis=((0, 0),), burst=False):
@@ -91,21 +172,26 @@ def remap_inst(name, dw, aw, origin, size, regions, addressing="word", depth=Non
             ml = [(0, 0, 0, 0, 0, 0, 0, 0)] + [(1, 1, we, a, (1 << nb) - 1, 0, 0, 0) for a in adrs for we in (0, 1)]
             alpha = L.with_slave(ml, [(0, 0, 0), (1, L.lane_values(nb)[1], 0), (0, 0, 1)])
             return WbInst(name, top, lean_open, alphabet=alpha, kind="adapter", monitor=lambda: SlaveSideMonitor())
-        mon = lambda: Both(MasterMemMonitor(nb, 1 << 48, max_wait=40, adr_map=wmap), SlaveSideMonitor())
+        rs = RefSlave(nb, adr_shift=L.log2i(nb) if addressing == "byte" else 0)
+        mon = lambda: Both(MasterMemMonitor(nb, 1 << 48, max_wait=40, adr_map=wmap, backing=rs), SlaveSideMonitor())
         return WbInst(name, top, lean_open, kind="adapter",
                       master_gen=ClassicMaster(nb, (1 << aw_sig) - 1, hot_adrs=hot_adrs),
-                      slave_gen=RefSlave(nb, adr_shift=L.log2i(nb) if addressing == "byte" else 0), monitor=mon)
+                      slave_gen=rs, monitor=mon)
     lean_open = P("remap_sram", *p, depth, *init)
     alpha = L.master_letters(nb, adrs, [(1 << nb) - 1, 1], L.lane_values(nb)) if mode == "A" else None
     mon = lambda: MasterMemMonitor(nb, depth * nb, init_bytes(init, nb), max_wait=4, adr_map=wmap)
     return WbInst(name, top, lean_open, alphabet=alpha, master_gen=ClassicMaster(nb, (1 << aw_sig) - 1), monitor=mon)
 
 
-def wb2csr_inst(name, dw, aw, register, caw=14, mode="A", adrs=None):
+def wb2csr_inst(name, dw, aw, register, caw=14, mode="A", adrs=None, addressing="word"):
+    """`aw` counts word-address bits; a byte-addressed bus has log2(nb) more address lines, which the bridge drops."""
     nb = dw // 8
-    top = L.build_wb2csr(dw, aw, register, caw)
-    lean_open = P("wb2csr", nb, int(register), 0, caw)
-    mon = lambda: MasterMemMonitor(nb, 1 << 40, max_wait=4, write_mask_all=True, adr_map=lambda a: a % (1 << caw))
+    shift = L.log2i(nb) if addressing == "byte" else 0
+    top = L.build_wb2csr(dw, aw, register, caw, addressing)
+    lean_open = P("wb2csr", nb, int(register), shift, caw)
+    mon = lambda: MasterMemMonitor(nb, 1 << 40, max_wait=4, write_mask_all=True,
+                                   adr_map=lambda a: (a >> shift) % (1 << caw))
+    aw = aw + shift
     if mode == "A":
         ml = L.master_letters(nb, adrs, range(1 << nb), L.lane_values(nb))
         alpha = [m + (d,) for m in ml for d in L.lane_values(nb)]
@@ -168,7 +254,7 @@ def jobs(tier):
         J.append(jb)
 
     def B(mk, **kw):
-        jb = Job("B", mk, cycles=kw.pop("cycles", 4000 if quick else 20000), runs=1 if quick else 3, **kw)
+        jb = Job("B", mk, cycles=kw.pop("cycles", 3000 if quick else 20000), runs=1 if quick else 3, **kw)
         jb.weight = 2
         J.append(jb)
 
@@ -181,6 +267,10 @@ def jobs(tier):
         A(lambda: sram_inst("SRAM d4 dw16", 16, 4, 3, adrs=range(5)))
     A(lambda: sram_inst("SRAM d4 dw8 read_only", 8, 4, 3, ro=True, init=[0xA1, 0, 0xB2, 5], adrs=range(6)))
     A(lambda: sram_inst("SRAM d3 dw8 (non-pow2 depth)", 8, 3, 3, adrs=range(5)))
+    A(lambda: sram_inst("SRAM d5 dw16 (non-pow2 depth)", 16, 5, 3, adrs=range(8), sels=[3, 1]), q=800, t=40000)
+    A(lambda: sram_inst("SRAM d4 dw8 from Memory object", 8, 4, 3, adrs=range(6), from_memory=True, init=[1, 0xA1]))
+    A(lambda: sram_inst("SRAM d4 dw8 from Memory object, bus_read_only", 8, 4, 3, ro=True, from_memory=True,
+                        init=[0xA1, 0, 0xB2, 5], adrs=range(6)))
     A(lambda: sram_inst("SRAM d2 dw8 burst", 8, 2, 3, burst=True, adrs=range(4), sels=[1], ctis=CT))
     if not quick:
         A(lambda: sram_inst("SRAM d4 dw8 burst", 8, 4, 3, burst=True, adrs=range(5), sels=[1], ctis=CT))
@@ -194,6 +284,8 @@ def jobs(tier):
                         slave_letters=[(0, 0, 0), (1, 0xB2A1, 0), (1, 0, 1), (0, 0xB2A1, 1)]))
     A(lambda: conv_inst("Up 8->32", 8, 32, 3, adrs=range(8), sels=[0, 1],
                         slave_letters=[(0, 0, 0), (1, 0xD4C3B2A1, 0), (0, 0, 1)]))
+    A(lambda: direct_inst("Converter 16->16 (direct connect)", "converter", 16, 2))
+    A(lambda: direct_inst("Cache(0) 16->16 (bypass)", "cache", 16, 2))
     # --- converters over a real SRAM (real modules composed in one Migen module)
     A(lambda: conv_sram_inst("Down 16->8 / SRAM d4", 16, 8, 2, 4, adrs=range(2 if quick else 3), sels=range(4)), w=8)
     A(lambda: conv_sram_inst("Down 32->8 / SRAM d4", 32, 8, 2, 4, adrs=range(2), sels=[0, 0xF, 1, 8, 6, 3]), q=900, t=25000, w=5)
@@ -215,13 +307,19 @@ def jobs(tier):
     # --- Wishbone2CSR
     A(lambda: wb2csr_inst("Wishbone2CSR registered dw16", 16, 3, True, caw=2, adrs=range(5)))
     A(lambda: wb2csr_inst("Wishbone2CSR unregistered dw16", 16, 3, False, caw=2, adrs=range(5)))
+    A(lambda: wb2csr_inst("Wishbone2CSR registered dw16 byte-addressed", 16, 3, True, caw=2, adrs=range(10),
+                          addressing="byte"))
+    A(lambda: wb2csr_inst("Wishbone2CSR unregistered dw8", 8, 3, False, caw=3, adrs=range(9)))
     # --- cache, 2 lines x 2 words, both width directions
     A(lambda: cache_inst("Cache 8->16 2 lines x 2 words (free slave)", 4, 8, 16, 3, 2, adrs=range(8), sels=[0, 1],
-                         slave_letters=[(0, 0, 0), (1, 0, 0), (1, 0xB2A1, 0)]), q=350, w=9)
+                         slave_letters=[(0, 0, 0), (1, 0, 0), (1, 0xB2A1, 0)]), q=200, w=9)
     A(lambda: cache_inst("Cache 16->8 2 lines x 2 words (free slave)", 2, 16, 8, 2, 3, adrs=range(4), sels=[0, 3, 1],
-                         slave_letters=[(0, 0, 0), (1, 0, 0), (1, 0xA1, 0)]), q=450, w=9)
-    A(lambda: cache_inst("Cache 8->16 / SRAM d4", 4, 8, 16, 3, 2, depth=4, adrs=range(8), sels=[1]), q=2000, t=15000, w=9)
-    A(lambda: cache_inst("Cache 16->8 / SRAM d8", 2, 16, 8, 2, 3, depth=8, adrs=range(4), sels=[3, 1]), q=2000, t=15000, w=9)
+                         slave_letters=[(0, 0, 0), (1, 0, 0), (1, 0xA1, 0)]), q=250, w=9)
+    A(lambda: cache_inst("Cache 8->16 reverse=False 2 lines x 2 words (free slave)", 4, 8, 16, 3, 2, reverse=False,
+                         adrs=range(8), sels=[0, 1], slave_letters=[(0, 0, 0), (1, 0, 0), (1, 0xB2A1, 0)]),
+      q=250, t=8000, w=7)
+    A(lambda: cache_inst("Cache 8->16 / SRAM d4", 4, 8, 16, 3, 2, depth=4, adrs=range(8), sels=[1]), q=1000, t=15000, w=9)
+    A(lambda: cache_inst("Cache 16->8 / SRAM d8", 2, 16, 8, 2, 3, depth=8, adrs=range(4), sels=[3, 1]), q=1000, t=15000, w=9)
     # --- realistic sizes, random lock-step co-simulation with the monitors armed
     B(lambda: sram_inst("SRAM 4KiB dw32", 32, 1024, 30, mode="B", init=words_init(64, 4, lambda i: i * 0x01010101 + 7)))
     B(lambda: sram_inst("SRAM 1KiB dw64 burst", 64, 128, 29, burst=True, mode="B",
@@ -229,7 +327,12 @@ def jobs(tier):
     B(lambda: sram_inst("SRAM 256B dw32 burst", 32, 64, 30, burst=True, mode="B"))
     B(lambda: sram_inst("SRAM 512B dw128 read_only", 128, 32, 28, ro=True, mode="B",
                         init=words_init(32, 16, lambda i: (i + 1) * 0x0123456789ABCDEF0F1E2D3C4B5A6978)))
-    for dwm, dws in ((64, 32), (128, 32), (64, 8), (32, 64), (32, 128), (8, 64)):
+    B(lambda: sram_inst("SRAM 24 words dw32 (non-pow2 depth, in-range addresses)", 32, 24, 30, mode="B", adr_max=23,
+                        init=words_init(24, 4, lambda i: 0x11111111 * (i % 15 + 1))))
+    B(lambda: sram_inst("SRAM 100 words dw64 burst (non-pow2 depth, in-range)", 64, 100, 29, burst=True, mode="B",
+                        adr_max=79, init=words_init(100, 8, lambda i: 0x0102030405060708 * (i % 31 + 1))))
+    B(lambda: direct_inst("Converter 64->64 (direct connect, ref slave)", "converter", 64, 12, mode="B"))
+    for dwm, dws in ((64, 32), (128, 32), (64, 8), (128, 8), (32, 64), (32, 128), (8, 64), (8, 128)):
         B(lambda dwm=dwm, dws=dws: conv_inst("Converter %d->%d (ref slave)" % (dwm, dws), dwm, dws, 12, mode="B"))
     B(lambda: conv_sram_inst("Down 64->32 / SRAM 1KiB", 64, 32, 10, 256, mode="B",
                              init=words_init(200, 4, lambda i: 0x80000000 + i * 0x10203)))
@@ -253,9 +356,15 @@ def jobs(tier):
                          hot_adrs=[0x10000, 0x10004, 0x1003C, 0x10040, 0x10044, 0x10048, 0x5001_0040]))
     B(lambda: wb2csr_inst("Wishbone2CSR registered dw32", 32, 30, True, mode="B"))
     B(lambda: wb2csr_inst("Wishbone2CSR unregistered dw32", 32, 30, False, mode="B"))
+    B(lambda: wb2csr_inst("Wishbone2CSR registered dw32 byte-addressed", 32, 28, True, mode="B", addressing="byte"))
+    B(lambda: wb2csr_inst("Wishbone2CSR unregistered dw8 caw=16", 8, 20, False, caw=16, mode="B"))
+    B(lambda: wb2csr_inst("Wishbone2CSR registered dw64", 64, 20, True, mode="B"))
     B(lambda: cache_inst("Cache 16 words 32->128 (ref slave)", 16, 32, 128, 12, 10, mode="B"))
     B(lambda: cache_inst("Cache 64 words 32->32 (ref slave)", 64, 32, 32, 12, 12, mode="B"))
     B(lambda: cache_inst("Cache 32 words 64->16 (ref slave)", 32, 64, 16, 10, 12, mode="B"))
+    B(lambda: cache_inst("Cache 64 words 64->128 (ref slave)", 64, 64, 128, 11, 10, mode="B"))
+    B(lambda: cache_inst("Cache 16 words 128->32 reverse=False (ref slave)", 16, 128, 32, 8, 10, reverse=False, mode="B"))
+    B(lambda: cache_inst("Cache 32 words 8->64 reverse=False (ref slave)", 32, 8, 64, 9, 6, reverse=False, mode="B"))
     B(lambda: cache_inst("Cache 1024 words 32->64 reverse=False (ref slave)", 1024, 32, 64, 14, 13, reverse=False,
                          mode="B"))
     J.sort(key=lambda jb: -jb.weight)
@@ -340,9 +449,98 @@ def correspond(ctx):
         "adapters are proved over the abstract arbitrary-latency byte memory (latMem) and, for the converters, over "
         "the SRAM model; Cache/Remapper/Wishbone2CSR over the real SRAM/CSR banks are covered by the tie and monitors",
     ]
-    cdis = run_corpus(ctx)
-    dis, bad = run_jobs(ctx, ctx.jobs)
-    return cdis + dis
+    deadline = time.time() + (150 if ctx.tier == "quick" else 1500)
+    for jb in ctx.jobs:
+        if jb.mode == "A":
+            jb.kw.setdefault("deadline", deadline)      # never an endless exploration (bounded jobs: exhaustive=false)
+    cdis = guarded(ctx, "corpus", run_corpus)
+    gdis = guarded(ctx, "soc-glue", glue_runs)
+    try:
+        dis, bad = run_jobs(ctx, ctx.jobs)
+    except Exception as e:
+        # a worker died (constructor of a changed implementation raised, a port disappeared, ...): re-run the
+        # jobs one by one in this process so that every other instance is still compared and the broken one is
+        # reported by name
+        ctx.log("parallel job run raised %r; re-running the jobs one by one" % (e,))
+        dis = []
+        for k in range(len(ctx.jobs)):
+            try:
+                d, _ = run_jobs(ctx, [ctx.jobs[k]], procs=1)
+                for x in d:
+                    x.job = k
+                dis += d
+            except Exception as e2:
+                import traceback
+                dis.append({"kind": "job-exception", "instance": "job #%d" % k,
+                            "what": "building or driving this instance raised %r" % (e2,),
+                            "traceback": traceback.format_exc()[-1500:]})
+    return cdis + gdis + dis
+
+
+def guarded(ctx, what, fn):
+    """An exception while exercising the real code is a broken tie, reported as such (never a crash)."""
+    try:
+        return fn(ctx)
+    except Exception as e:
+        import traceback
+        return [{"kind": what + "-exception", "instance": None, "what": "%s raised %r" % (what, e),
+                 "traceback": traceback.format_exc()[-1500:]}]
+
+
+def glue_instances():
+    return [
+        lambda: soc_glue_inst("glue: SoC bus 32, master 32 (add_ram rw+ro)", 32, 32),
+        lambda: soc_glue_inst("glue: SoC bus 32, master 64 (add_adapter: DownConverter)", 32, 64),
+        lambda: soc_glue_inst("glue: SoC bus 64, master 32 (add_adapter: UpConverter)", 64, 32),
+        lambda: soc_glue_inst("glue: SoC bus 32 bursting, master 64 (bursts through add_adapter)", 32, 64, bursting=True),
+        lambda: soc_glue_inst("glue: SoC bus 64 bursting, master 32 (bursts through add_adapter)", 64, 32, bursting=True),
+        lambda: soc_glue_inst("glue: SoC bus 32, byte-addressed master 32 (addressing conversion)", 32, 32,
+                              master_addressing="byte"),
+    ]
+
+
+def _glue_worker(arg):
+    import explore, random
+    k, seed, cycles = arg
+    inst = glue_instances()[k]()
+    rng = random.Random(seed * 104729 + k)
+    mon = inst.monitor()
+    trace, distinct, fail = [], 0, None
+    for t in range(cycles):
+        letter = inst.gen(rng, t)
+        outs = explore.impl_step(inst, letter)
+        trace.append(letter)
+        distinct += 1 if (letter[0] and letter[1]) else 0
+        m = mon.observe(letter, outs)
+        if m:
+            fail = (t, outs, m)
+            break
+    return k, inst.name, len(trace), distinct, mon.completed, (trace if fail else None), fail
+
+
+def glue_runs(ctx):
+    """Closed-loop runs of the instances built through the SoC glue, judged by the reference byte memory only
+    (forked workers; an exception in a worker propagates and is reported by `guarded`)."""
+    import os
+    import multiprocessing as mp
+    from explore import Disagreement
+    out = []
+    cycles = 1200 if ctx.tier == "quick" else 20000
+    n = len(glue_instances())
+    args = [(k, ctx.seed, cycles) for k in range(n)]
+    procs = min(n, int(os.environ.get("VERIF_PROCS", "0")) or (os.cpu_count() or 4))
+    if procs <= 1:
+        results = [_glue_worker(a) for a in args]
+    else:
+        with mp.get_context("fork").Pool(procs) as pool:
+            results = pool.map(_glue_worker, args, chunksize=1)
+    for k, name, ntr, distinct, completed, trace, fail in results:
+        ctx.cov.add_instance(name, states=0, transitions=ntr, nontrivial=distinct, exhaustive=False, mode="glue")
+        ctx.cov.count("glue completed bus cycles", completed)
+        if fail:
+            t, outs, m = fail
+            out.append(Disagreement(glue_instances()[k](), [tuple(l) for l in trace], t, outs, None, kind="monitor:" + m))
+    return out
 
 
 # ---------------------------------------------------------------------------------------------------------
@@ -427,7 +625,7 @@ def search(ctx, disagreements, proof_info):
         if getattr(d, "kind", "").startswith("monitor:"):
             trace, msg, fmt = d.trace, d.kind[8:], L.FMT_ADAPTER
             try:        # minimise (drop cycles while the monitor still fires on the real code)
-                inst = all_jobs[d.job].make()
+                inst = d.inst if getattr(d, "inst", None) is not None else all_jobs[d.job].make()
                 fmt = inst.letter_format
                 small = shrink_blocks(inst, list(trace))
                 r = explore.replay_with_monitor(inst, small)
@@ -458,6 +656,7 @@ def search(ctx, disagreements, proof_info):
         if all_jobs[j].mode == "B":
             cands.append(("jobs", all_jobs[j].make))
     cands += [("search", mk) for mk in search_instances(ctx.tier)]
+    cands += [("glue", mk) for mk in glue_instances()]
     cands += [("jobs", jb.make) for k, jb in enumerate(all_jobs) if jb.mode == "B" and k not in bad]
     for source, mk in cands:
         if time.time() > deadline:
@@ -486,7 +685,8 @@ def replay(ctx, payload):
             print("  ", d)
         return 1
     trace = [tuple(l) for l in fi.get("trace", [])]
-    makers = [jb.make for jb in jobs("thorough")] + [jb.make for jb in jobs("quick")] + search_instances("thorough")
+    makers = ([jb.make for jb in jobs("thorough")] + [jb.make for jb in jobs("quick")] + search_instances("thorough") +
+              glue_instances() + list(corpus_instances().values()))
     for mk in makers:
         inst = mk()
         if inst.name == name:
